@@ -102,6 +102,8 @@ func (ch *ConnectionHandler) muxHandler(protocol string, downstreamConnection io
 			if err != nil {
 				return err
 			}
+			// PipeData closes only the side opposite to the one that finished; the target connection is ours to close
+			defer streams.TryClose(upstreamConnection)
 			return streams.PipeData(downstreamConnection, upstreamConnection)
 		}
 	}
